@@ -6,7 +6,7 @@ from checklib import Scenario
 RULE = ("small trees with every consulted file assigned owner in {0, 1234}, group in {0, 4321} and kind in {regular, symlink "
         "to a regular file} (real chown/symlink; the check runs as root) x every combination of required owner / required group "
         "/ no-symlink rule x readFile, readDirs, readDirsHistory, readConfig and (40 %) their WithCallback variants with an accepting callback, with absolute names and (a third of the cases) names relative to the working directory; then the same read after "
-        "econf_reset_security_settings; the oracle checks on the implementation's fopen log that no file violating a rule in "
+        "econf_reset_security_settings; a quarter of the cases add econf_requirePermissions masks (met by all / failed by regular files / failed by directories); the oracle checks on the implementation's fopen log that no file violating a rule in "
         "force is ever opened; the specific code of the first violating file and everything else through the model; "
         "distinct by scenario")
 
@@ -19,8 +19,13 @@ def gen(rng, tier):
         ow = rng.choice(["-", "0", "1234"]); gr = rng.choice(["-", "0", "4321"]); nl = rng.choice(["0", "0", "1"])
         files = laylib.files_of(st["cmds"])
         cbc = ["cb reject"] if rng.random() < 0.4 else []          # the ...WithCallback entry points with a callback that accepts everything
-        cmds = st["cmds"] + st["pre"] + cbc + ["sec %s %s %s" % (ow, gr, nl), st["read"], "dump 0"]
-        obs = [False] * (len(st["cmds"]) + len(st["pre"]) + len(cbc) + 1) + [True, True]
+        secs = ["sec %s %s %s" % (ow, gr, nl)]
+        if rng.random() < 0.25:
+            # the deprecated permission requirement on top (harness files are 0644, directories 0755, links 0777):
+            # masks that every file meets, that regular files fail, that directories fail
+            secs.append("perms %s %s" % (rng.choice(["400", "4", "100", "2", "170000", "444"]), rng.choice(["100", "5", "2", "40000", "20"])))
+        cmds = st["cmds"] + st["pre"] + cbc + secs + [st["read"], "dump 0"]
+        obs = [False] * (len(st["cmds"]) + len(st["pre"]) + len(cbc) + len(secs)) + [True, True]
         if st["hist"]: cmds.append(st["hist"]); obs.append(True)
         if files:
             f = rng.choice(files)
